@@ -5,11 +5,12 @@ From Coq Require Import ZifyBool ZifyNat Lia Permutation.
 (** Deny refuses MAIL / RCPT with the hook's own code; nothing is recorded. *)
 Theorem deny_literal_mail : forall c s sz o code text,
   st s = READY -> sz <> SzBad ->
-  (match sz with SzVal n => (n <= max_bytes c)%Z | _ => True end) ->
+  (match sz with SzVal n => (n <= max_bytes c /\ n <= int32_max)%Z | _ => True end) ->
   step c s (L (Mail (MParsed sz (Some o)) (Deny code text))) = Ok s (one code) [].
 Proof.
   intros c s sz o code text Hs Hb Hsz. unfold step, step_ready, step_mail_from. rewrite Hs.
   destruct sz as [| |n]; try congruence; try reflexivity.
+  destruct (int32_max <? n)%Z eqn:E0; [lia|].
   destruct (max_bytes c <? n)%Z eqn:E; [lia|reflexivity].
 Qed.
 
@@ -20,12 +21,13 @@ Proof. intros c s r code text Hs. unfold step, step_mail. rewrite Hs. reflexivit
 (** Allow accepts even against the domain policy (the recipient limit still applies). *)
 Theorem allow_overrides_policy_mail : forall c s sz o,
   st s = READY -> sz <> SzBad ->
-  (match sz with SzVal n => (n <= max_bytes c)%Z | _ => True end) ->
+  (match sz with SzVal n => (n <= max_bytes c /\ n <= int32_max)%Z | _ => True end) ->
   step c s (L (Mail (MParsed sz (Some o)) Allow)) =
   Ok {| st := MAIL; from := Some o; rcpts := rcpts s; helo := helo s |} (one 250) [].
 Proof.
   intros c s sz o Hs Hb Hsz. unfold step, step_ready, step_mail_from. rewrite Hs.
   destruct sz as [| |n]; try congruence; try reflexivity.
+  destruct (int32_max <? n)%Z eqn:E0; [lia|].
   destruct (max_bytes c <? n)%Z eqn:E; [lia|reflexivity].
 Qed.
 
